@@ -56,6 +56,11 @@ def cases(draw, tier):
     world["fields"]["c0c"] = dict(kind="const", shape=[], mesh=draw(st.integers(0, nmesh - 1)))
     world["fields"]["f0b"] = dict(world["fields"]["f0"], mesh=draw(st.integers(0, nmesh - 1)))
     world["fields"]["w0b"] = dict(world["fields"]["w0"], mesh=draw(st.integers(0, nmesh - 1)))
+    if nmesh > 1:
+        # objects created earlier may live on meshes created later (and vice versa)
+        for n_, f_ in world["fields"].items():
+            if f_["kind"] in ("coef", "const") and "mesh" not in f_:
+                f_["mesh"] = draw(st.integers(0, nmesh - 1))
     if not draw(st.booleans()):
         world["fields"].pop("a0", None)
     G = Gen(draw, world, PROF)
@@ -92,7 +97,14 @@ def cases(draw, tier):
         if argnames:
             t = ["mul", t, L.term(argnames, 1)]
         integrals.append({"itype": "dx", "sid": draw_sid(draw), "md": draw_md(draw), "mesh": draw(st.integers(0, nmesh - 1)), "expr": t})
-    hist = [{k: draw(st.sampled_from(OFFSETS)) for k in ("index", "coef", "const", "label", "mesh")} for _ in range(4)]
+    hist = []
+    for _ in range(4):
+        if draw(st.booleans()):
+            hist.append({k: draw(st.sampled_from(OFFSETS)) for k in ("index", "coef", "const", "label", "mesh")})
+        else:
+            # all counters near the same digit boundary (what a long-running session looks like)
+            o = draw(st.sampled_from(OFFSETS))
+            hist.append({k: max(0, o + draw(st.integers(-2, 2))) for k in ("index", "coef", "const", "label", "mesh")})
     return {"world": world, "vars": G.vars, "integrals": integrals, "histories": hist}
 
 
